@@ -2,7 +2,7 @@
   C18 — internal timers: the model's `timerUpdate` (the UpdateTimer arm of `trigger_update`)
   against the contract function `C18.timerSpec` written from the property text.
 -/
-import MbVerif.Proofs.SimBugFree
+import MbVerif.Proofs.SimLive
 import MbVerif.Spec.C18
 
 namespace Mb.C18
@@ -122,6 +122,13 @@ theorem C18_timerEnd_at_expiry_once {σ : Type} (st st' : St σ) (target : Int) 
 theorem C18_due_timer_found {σ : Type} (st : St σ) (i : Nat) (h : pickDecide st = .ok (.timer i)) :
     doInternalTimer st (st.now + i) ≠ .error .noInternal :=
   doInternalTimer_found h
+
+/-- **Served before it expires**: the offset `pick_next` serves next is at most the offset of
+    every running internal timer that is not in the past, so no expiry is skipped. -/
+theorem C18_served_before_expiry {σ : Type} (st : St σ) (p : Pick) (o : Nat) (h : pickDecide st = .ok p)
+    (ho : p.offset = some o) (t : Int) (hm : some t ∈ st.client.schedTimer ∨ some t ∈ st.server.schedTimer)
+    (hn : st.now ≤ t) : o ≤ dsince t st.now :=
+  served_before_timer h ho t hm hn
 
 /-- **Cancel clears**: after `Cancel Internal` / `Cancel All` the machine's timer slot is empty, so
     no TimerEnd can be produced for it until a new UpdateTimer. -/
